@@ -165,7 +165,8 @@ func newPathToken(typ pathType, val string, s, e int) pathToken {
 	case pathTypeLitInt:
 		i, err := strconv.Atoi(val)
 		if err != nil {
-			panic(err)
+			// the literal does not fit into int: report it as an invalid token
+			return pathToken{typ: pathTypeERR, val: newPathValueStr("integer out of range"), loc: [2]int{s, e}}
 		}
 		return pathToken{typ: typ, val: newPathValueInt(i), loc: [2]int{s, e}}
 	default:
